@@ -146,7 +146,9 @@ fn align_stem_edges(
         // See <https://gitlab.freedesktop.org/freetype/freetype/-/blob/57617782464411201ce7bbc93b086c1b4d7d84a5/src/autofit/afcjk.c#L1912>
         if group != ScriptGroup::Default {
             if let Some(last_pos) = last_stem_pos {
-                if edge.pos < last_pos + 64 || edges[edge2_ix].pos < last_pos + 64 {
+                // FreeType computes this in a 64-bit FT_Pos
+                let limit = last_pos as i64 + 64;
+                if (edge.pos as i64) < limit || (edges[edge2_ix].pos as i64) < limit {
                     serif_count += 1;
                     continue;
                 }
@@ -166,9 +168,12 @@ fn align_stem_edges(
                 let anchor = &edges[anchor_ix];
                 let edge = edges[edge_ix];
                 let edge2 = edges[edge2_ix];
-                let original_pos = anchor.pos + (edge.opos - anchor.opos);
-                let original_len = edge2.opos - edge.opos;
-                let original_center = original_pos + (original_len >> 1);
+                // FreeType computes all of the following with a (64-bit)
+                // FT_Pos where they can't overflow. Our positions are 32-bit
+                // so wrap instead.
+                let original_pos = anchor.pos.wrapping_add(edge.opos.wrapping_sub(anchor.opos));
+                let original_len = edge2.opos.wrapping_sub(edge.opos);
+                let original_center = original_pos.wrapping_add(original_len >> 1);
                 let cur_len = stem_width(
                     metrics,
                     group,
@@ -179,27 +184,38 @@ fn align_stem_edges(
                     edge2.flags,
                 );
                 if edge2.flags & Edge::DONE != 0 {
-                    let new_pos = edge2.pos - cur_len;
+                    let new_pos = edge2.pos.wrapping_sub(cur_len);
                     edges[edge_ix].pos = new_pos;
                 } else if cur_len < 96 {
                     let cur_pos1 = pix_round(original_center);
                     let (u_off, d_off) = if cur_len <= 64 { (32, 32) } else { (38, 26) };
-                    let delta1 = (original_center - (cur_pos1 - u_off)).abs();
-                    let delta2 = (original_center - (cur_pos1 + d_off)).abs();
+                    let delta1 = original_center
+                        .wrapping_sub(cur_pos1.wrapping_sub(u_off))
+                        .wrapping_abs();
+                    let delta2 = original_center
+                        .wrapping_sub(cur_pos1.wrapping_add(d_off))
+                        .wrapping_abs();
                     let cur_pos1 = if delta1 < delta2 {
-                        cur_pos1 - u_off
+                        cur_pos1.wrapping_sub(u_off)
                     } else {
-                        cur_pos1 + d_off
+                        cur_pos1.wrapping_add(d_off)
                     };
-                    edges[edge_ix].pos = cur_pos1 - cur_len / 2;
-                    edges[edge2_ix].pos = cur_pos1 + cur_len / 2;
+                    edges[edge_ix].pos = cur_pos1.wrapping_sub(cur_len / 2);
+                    edges[edge2_ix].pos = cur_pos1.wrapping_add(cur_len / 2);
                 } else {
                     let cur_pos1 = pix_round(original_pos);
-                    let delta1 = (cur_pos1 + (cur_len >> 1) - original_center).abs();
-                    let cur_pos2 = pix_round(original_pos + original_len) - cur_len;
-                    let delta2 = (cur_pos2 + (cur_len >> 1) - original_center).abs();
+                    let delta1 = cur_pos1
+                        .wrapping_add(cur_len >> 1)
+                        .wrapping_sub(original_center)
+                        .wrapping_abs();
+                    let cur_pos2 =
+                        pix_round(original_pos.wrapping_add(original_len)).wrapping_sub(cur_len);
+                    let delta2 = cur_pos2
+                        .wrapping_add(cur_len >> 1)
+                        .wrapping_sub(original_center)
+                        .wrapping_abs();
                     let new_pos = if delta1 < delta2 { cur_pos1 } else { cur_pos2 };
-                    let new_pos2 = new_pos + cur_len;
+                    let new_pos2 = new_pos.wrapping_add(cur_len);
                     edges[edge_ix].pos = new_pos;
                     edges[edge2_ix].pos = new_pos2;
                 }
@@ -212,7 +228,7 @@ fn align_stem_edges(
                 // No stem has been aligned yet
                 let edge = edges[edge_ix];
                 let edge2 = edges[edge2_ix];
-                let original_len = edge2.opos - edge.opos;
+                let original_len = edge2.opos.wrapping_sub(edge.opos);
                 let cur_len = stem_width(
                     metrics,
                     group,
@@ -231,18 +247,22 @@ fn align_stem_edges(
                     (38, 26)
                 };
                 if cur_len < 96 {
-                    let original_center = edge.opos + (original_len >> 1);
+                    let original_center = edge.opos.wrapping_add(original_len >> 1);
                     let mut cur_pos1 = pix_round(original_center);
-                    let error1 = (original_center - (cur_pos1 - u_off)).abs();
-                    let error2 = (original_center - (cur_pos1 + d_off)).abs();
+                    let error1 = original_center
+                        .wrapping_sub(cur_pos1.wrapping_sub(u_off))
+                        .wrapping_abs();
+                    let error2 = original_center
+                        .wrapping_sub(cur_pos1.wrapping_add(d_off))
+                        .wrapping_abs();
                     if error1 < error2 {
-                        cur_pos1 -= u_off;
+                        cur_pos1 = cur_pos1.wrapping_sub(u_off);
                     } else {
-                        cur_pos1 += d_off;
+                        cur_pos1 = cur_pos1.wrapping_add(d_off);
                     }
-                    let edge_pos = cur_pos1 - cur_len / 2;
+                    let edge_pos = cur_pos1.wrapping_sub(cur_len / 2);
                     edges[edge_ix].pos = edge_pos;
-                    edges[edge2_ix].pos = edge_pos + cur_len;
+                    edges[edge2_ix].pos = edge_pos.wrapping_add(cur_len);
                 } else {
                     edges[edge_ix].pos = pix_round(edge.opos);
                 }
@@ -286,9 +306,9 @@ fn hint_lowercase_m(edges: &mut [Edge], group: ScriptGroup) {
     let edge1 = &edges[edge1_ix];
     let edge2 = &edges[edge2_ix];
     let edge3 = &edges[edge3_ix];
-    let dist1 = edge2.opos - edge1.opos;
-    let dist2 = edge3.opos - edge2.opos;
-    let span = (dist1 - dist2).abs();
+    let dist1 = edge2.opos.wrapping_sub(edge1.opos);
+    let dist2 = edge3.opos.wrapping_sub(edge2.opos);
+    let span = dist1.wrapping_sub(dist2).wrapping_abs();
     if group != ScriptGroup::Default {
         // CJK has additional conditions on the following...
         // See <https://gitlab.freedesktop.org/freetype/freetype/-/blob/57617782464411201ce7bbc93b086c1b4d7d84a5/src/autofit/afcjk.c#L2090>
@@ -299,20 +319,22 @@ fn hint_lowercase_m(edges: &mut [Edge], group: ScriptGroup) {
         }
     }
     if span < 8 {
-        let delta = edge3.pos - (2 * edge2.pos - edge1.pos);
+        let delta = edge3
+            .pos
+            .wrapping_sub(edge2.pos.wrapping_mul(2).wrapping_sub(edge1.pos));
         let link_ix = edge3.link_ix.map(|ix| ix as usize);
         let edge3 = &mut edges[edge3_ix];
-        edge3.pos -= delta;
+        edge3.pos = edge3.pos.wrapping_sub(delta);
         edge3.flags |= Edge::DONE;
         if let Some(link_ix) = link_ix {
             let link = &mut edges[link_ix];
-            link.pos -= delta;
+            link.pos = link.pos.wrapping_sub(delta);
             link.flags |= Edge::DONE;
         }
         // Move serifs along with the stem
         if edges.len() == 12 {
-            edges[8].pos -= delta;
-            edges[11].pos -= delta;
+            edges[8].pos = edges[8].pos.wrapping_sub(delta);
+            edges[11].pos = edges[11].pos.wrapping_sub(delta);
         }
     }
 }
@@ -459,7 +481,7 @@ fn adjust_link(
         return None;
     }
     let link = edge.link(edges)?;
-    if (link.pos - prev_edge.pos).abs() > 16 {
+    if link.pos.wrapping_sub(prev_edge.pos).wrapping_abs() > 16 {
         let new_pos = edge2.pos;
         edges[edge_ix].pos = new_pos;
     }
@@ -494,7 +516,7 @@ fn snap_width(widths: &[ScaledWidth], width: i32) -> i32 {
         widths
             .iter()
             .fold((64 + 32 + 2, width), |(best_dist, ref_width), candidate| {
-                let dist = (width - candidate.scaled).abs();
+                let dist = width.wrapping_sub(candidate.scaled).wrapping_abs();
                 if dist < best_dist {
                     (dist, candidate.scaled)
                 } else {
@@ -503,12 +525,12 @@ fn snap_width(widths: &[ScaledWidth], width: i32) -> i32 {
             });
     let scaled = pix_round(ref_width);
     if width >= ref_width {
-        if width < scaled + 48 {
+        if width < scaled.wrapping_add(48) {
             ref_width
         } else {
             width
         }
-    } else if width > scaled - 48 {
+    } else if width > scaled.wrapping_sub(48) {
         ref_width
     } else {
         width
@@ -534,7 +556,9 @@ fn stem_width(
     }
     let is_vertical = metrics.dim == Axis::VERTICAL;
     let sign = if width < 0 { -1 } else { 1 };
-    let mut dist = width.abs();
+    // FreeType computes the following with a (64-bit) FT_Pos where it can't
+    // overflow. Our widths are 32-bit so wrap instead.
+    let mut dist = width.wrapping_abs();
     if (is_vertical && scale.flags & Scale::VERTICAL_SNAP == 0)
         || (!is_vertical && scale.flags & Scale::HORIZONTAL_SNAP == 0)
     {
@@ -542,7 +566,7 @@ fn stem_width(
         if group == ScriptGroup::Default {
             if (stem_flags & Edge::SERIF != 0) && is_vertical && (dist < 3 * 64) {
                 // Don't touch widths of serifs
-                return dist * sign;
+                return dist.wrapping_mul(sign);
             } else if base_flags & Edge::ROUND != 0 {
                 if dist < 80 {
                     dist = 64;
@@ -554,10 +578,10 @@ fn stem_width(
         if !metrics.widths.is_empty() {
             // Compare to standard width
             let min_width = metrics.widths[0].scaled;
-            let delta = (dist - min_width).abs();
+            let delta = dist.wrapping_sub(min_width).wrapping_abs();
             if delta < 40 {
                 dist = min_width.max(48);
-                return dist * sign;
+                return dist.wrapping_mul(sign);
             }
             if group == ScriptGroup::Default {
                 // Default/Latin behavior
@@ -580,10 +604,15 @@ fn stem_width(
                         if scale.size < 10.0 {
                             new_base_delta = base_delta;
                         } else if scale.size < 30.0 {
-                            new_base_delta = (base_delta * (30.0 - scale.size) as i32) / 20;
+                            // The factor is in (0, 20] so the result fits
+                            new_base_delta =
+                                (base_delta as i64 * (30.0 - scale.size) as i64 / 20) as i32;
                         }
                     }
-                    dist = (dist - new_base_delta.abs() + 32) & !63;
+                    dist = dist
+                        .wrapping_sub(new_base_delta.wrapping_abs())
+                        .wrapping_add(32)
+                        & !63;
                 }
             }
         }
@@ -591,7 +620,7 @@ fn stem_width(
             // Divergent CJK behavior
             // See <https://gitlab.freedesktop.org/freetype/freetype/-/blob/57617782464411201ce7bbc93b086c1b4d7d84a5/src/autofit/afcjk.c#L1544>
             if dist < 54 {
-                dist += (54 - dist) / 2;
+                dist = dist.wrapping_add(54i32.wrapping_sub(dist) / 2);
             } else if dist < 3 * 64 {
                 let delta = dist & 63;
                 dist &= -64;
@@ -615,7 +644,7 @@ fn stem_width(
         if is_vertical {
             // Always round to integers in the vertical case
             if dist >= 64 {
-                dist = (dist + 16) & !63;
+                dist = dist.wrapping_add(16) & !63;
             } else {
                 dist = 64;
             }
@@ -625,7 +654,7 @@ fn stem_width(
             if dist < 64 {
                 dist = 64;
             } else {
-                dist = (dist + 32) & !63;
+                dist = dist.wrapping_add(32) & !63;
             }
         } else {
             // Smooth horizontal hinting: strengthen small stems, round
@@ -638,7 +667,7 @@ fn stem_width(
                 dist = (dist + 22) & !63;
                 if group == ScriptGroup::Default {
                     // See <https://gitlab.freedesktop.org/freetype/freetype/-/blob/57617782464411201ce7bbc93b086c1b4d7d84a5/src/autofit/aflatin.c#L2914>
-                    let delta = (dist - original_dist).abs();
+                    let delta = dist.wrapping_sub(original_dist).wrapping_abs();
                     if delta >= 16 {
                         dist = original_dist;
                         if dist < 48 {
@@ -648,11 +677,11 @@ fn stem_width(
                 }
             } else {
                 // Round otherwise to prevent color fringes in LCD mode
-                dist = (dist + 32) & !63;
+                dist = dist.wrapping_add(32) & !63;
             }
         }
     }
-    dist * sign
+    dist.wrapping_mul(sign)
 }
 
 /// Align one stem edge relative to previous stem edge.
@@ -669,8 +698,8 @@ fn align_linked_edge(
     let edges = axis.edges.as_mut_slice();
     let base_edge = &edges[base_edge_ix];
     let stem_edge = &edges[stem_edge_ix];
-    let width = stem_edge.opos - base_edge.opos;
-    let base_delta = base_edge.pos - base_edge.opos;
+    let width = stem_edge.opos.wrapping_sub(base_edge.opos);
+    let base_delta = base_edge.pos.wrapping_sub(base_edge.opos);
     let fitted_width = stem_width(
         metrics,
         group,
@@ -680,7 +709,7 @@ fn align_linked_edge(
         base_edge.flags,
         stem_edge.flags,
     );
-    edges[stem_edge_ix].pos = base_edge.pos + fitted_width;
+    edges[stem_edge_ix].pos = base_edge.pos.wrapping_add(fitted_width);
 }
 
 /// Shift the serif edge by the adjustment made to base edge.
@@ -690,7 +719,9 @@ fn align_serif_edge(axis: &mut Axis, base_edge_ix: usize, serif_edge_ix: usize) 
     let edges = axis.edges.as_mut_slice();
     let base_edge = &edges[base_edge_ix];
     let serif_edge = &edges[serif_edge_ix];
-    edges[serif_edge_ix].pos = base_edge.pos + (serif_edge.opos - base_edge.opos);
+    edges[serif_edge_ix].pos = base_edge
+        .pos
+        .wrapping_add(serif_edge.opos.wrapping_sub(base_edge.opos));
 }
 
 /// Adjusts both edges of a stem and returns the delta.
@@ -726,7 +757,7 @@ fn hint_normal_stem_cjk(
         }
     };
     let threshold = 64 - threshold_delta;
-    let original_len = edge2.opos - edge.opos;
+    let original_len = edge2.opos.wrapping_sub(edge.opos);
     let cur_len = stem_width(
         metrics,
         group,
@@ -736,20 +767,22 @@ fn hint_normal_stem_cjk(
         edge.flags,
         edge2.flags,
     );
-    let original_center = (edge.opos + edge2.opos) / 2 + anchor;
-    let cur_pos1 = original_center - cur_len / 2;
-    let cur_pos2 = cur_pos1 + cur_len;
+    // The average of two i32 values always fits in an i32
+    let original_center =
+        (((edge.opos as i64 + edge2.opos as i64) / 2) as i32).wrapping_add(anchor);
+    let cur_pos1 = original_center.wrapping_sub(cur_len / 2);
+    let cur_pos2 = cur_pos1.wrapping_add(cur_len);
     let mut finish = |mut delta: i32| {
         if !do_stem_adjust {
             delta = delta.clamp(-MAX_DELTA_ABS, MAX_DELTA_ABS);
         }
-        let adjustment = cur_pos1 + delta;
+        let adjustment = cur_pos1.wrapping_add(delta);
         if edge.opos < edge2.opos {
             axis.edges[edge_ix].pos = adjustment;
-            axis.edges[edge2_ix].pos = adjustment + cur_len;
+            axis.edges[edge2_ix].pos = adjustment.wrapping_add(cur_len);
         } else {
             axis.edges[edge2_ix].pos = adjustment;
-            axis.edges[edge_ix].pos = adjustment + cur_len;
+            axis.edges[edge_ix].pos = adjustment.wrapping_add(cur_len);
         }
         delta
     };
